@@ -11,7 +11,7 @@ def run(ctx):
     for fs in ctx.featuresets():
         c = ctx.mir(fs)["ts_rs"]
         res = [E.error_discipline_rule(c, "C17"), E.record_after_success_rule(c, "C17"), P.export_panic_rule(c, "C17"),
-               P.lock_panic_rule(c, "C17"), E.path_agreement_rule(c, "C17"), E.walk_rule(c, "C17"), E.normaliser_purity_rule(c, "C17", rule="C17.R8")]
+               P.lock_panic_rule(c, "C17"), E.path_agreement_rule(c, "C17"), E.walk_rule(c, "C17"), E.normaliser_purity_rule(c, "C17", rule="C17.R8"), E.normalisation_owner_rule(c, "C17"), E.entry_reaches_writer_rule(c, "C17", rule="C17.R10")]
         for r in res:
             if fs != "default":
                 r.rule += "@" + fs
